@@ -1054,11 +1054,22 @@ pub fn to_yaml(v: &Val, sp: &Spelling) -> Option<String> {
 	} else {
 		yaml_block(v, sp, &mut site, 0, &mut s)
 	};
-	if ok {
-		Some(s)
-	} else {
-		None
+	if !ok {
+		return None;
 	}
+	// Spelling: the whole document indented by 1–3 spaces (block structure
+	// depends only on relative columns).
+	let k = match sp.coin(0x1d17, 4) {
+		1 => 1,
+		2 => 2,
+		3 => 3,
+		_ => 0,
+	};
+	if k > 0 && sp.level > 0 {
+		let pad = " ".repeat(k);
+		s = s.lines().map(|l| format!("{pad}{l}\n")).collect();
+	}
+	Some(s)
 }
 
 fn toml_key(k: &str, out: &mut String) {
